@@ -171,6 +171,12 @@ def startDoc (f : String) : Option Doc :=
   | _ => none
 
 def histStep (d : Doc) (op : String) : Option (Doc × String) :=
+  -- an operation through the handle of a paragraph that was removed from the document is skipped
+  let dead : Bool := match op.splitOn "." with
+    | [o, h, _, _] => (o == "set" || o == "ins" || o == "ren") && (d.para (h.toNat?.getD 0)).isNone
+    | ["rm", h, _] => (d.para (h.toNat?.getD 0)).isNone
+    | _ => false
+  if dead then some (d, "~") else
   match op.splitOn "." with
   | ["set", h, k, v] => do
     let h ← h.toNat?; let k ← decStr k; let v ← decStr v
